@@ -510,6 +510,30 @@ func keyOrigin(v ssa.Value, fn *ssa.Function, depth int) (string, ssa.Value) {
 				}
 			}
 			return "", nil
+		case *ssa.Parameter:
+			// a key handed to an unexported helper (db.putVersioned(key, vctx.TombstoneKey(tk), v)): the argument at
+			// the helper's one call site
+			if depth > 3 || keyOriginWorld == nil || fn == nil || fn.Object() == nil || fn.Object().Exported() {
+				return "", nil
+			}
+			idx := -1
+			for k, q := range fn.Params {
+				if q == x {
+					idx = k
+				}
+			}
+			var site ssa.CallInstruction
+			nSites := 0
+			for _, cs := range callSitesOf(keyOriginWorld)[fn] {
+				if ci, ok := cs.(ssa.CallInstruction); ok {
+					site = ci
+					nSites++
+				}
+			}
+			if idx < 0 || nSites != 1 || idx >= len(site.Common().Args) {
+				return "", nil
+			}
+			return keyOrigin(site.Common().Args[idx], site.Parent(), depth+1)
 		default:
 			return "", nil
 		}
@@ -517,8 +541,12 @@ func keyOrigin(v ssa.Value, fn *ssa.Function, depth int) (string, ssa.Value) {
 	return "", nil
 }
 
+// keyOriginWorld: the program keyOrigin resolves helper parameters in (set by the rule that uses it).
+var keyOriginWorld *World
+
 func checkTombstonePairing(r *Run, f *ssa.Function, name string, isPut bool) {
 	w := r.W
+	keyOriginWorld = w
 	// collect transaction ops in f and its closures, grouped by function (one closure = one txn)
 	type opRec struct {
 		op, origin string
@@ -528,7 +556,11 @@ func checkTombstonePairing(r *Run, f *ssa.Function, name string, isPut bool) {
 		block      *ssa.BasicBlock
 	}
 	var ops []opRec
-	for _, g := range withClosures(f) {
+	var fns []*ssa.Function
+	for _, top := range withHelpers(f) { // the versioned branch may live in a helper (db.putVersioned(vctx, tk, v))
+		fns = append(fns, withClosures(top)...)
+	}
+	for _, g := range fns {
 		for _, c := range calls(g) {
 			op, key, _ := txnOp(c)
 			if op == "" {
